@@ -1,9 +1,20 @@
+// Package vpruner: runtime monitor for C16 "pruning never damages retained blocks, the
+// head state, or L1-unconfirmed history".
+//
+// The real pruner.Pruner.Run is driven through its two real feeds over a recording
+// store (chain.RecDB); an unpruned twin node stores the same chain. After every event
+// that made the pruner write, after cancellation at the k-th batch write, and for crash
+// images of the k-th commit of a prune, the pruned node is compared with the twin
+// through chain.Probe (see oracle_test.go: judge). readers_test.go adds state readers
+// held across a prune and concurrent readers; harness_test.go holds the pruner session
+// and the "event has been handled" detection.
 package vpruner
 
 import (
 	"errors"
 	"fmt"
 	"math/rand/v2"
+	"os"
 	"sort"
 	"strings"
 	"sync"
@@ -15,6 +26,7 @@ import (
 	"github.com/NethermindEth/juno/core"
 	"github.com/NethermindEth/juno/core/felt"
 	"github.com/NethermindEth/juno/db"
+	"github.com/NethermindEth/juno/db/pebblev2"
 	"github.com/NethermindEth/juno/pruner"
 	"github.com/NethermindEth/juno/verifh/lib"
 	"github.com/NethermindEth/juno/verifh/lib/chain"
@@ -39,6 +51,7 @@ type config struct {
 	StartAt   int  // blocks already stored when the pruner service starts
 	Cancel    bool // context cancelled at the k-th batch write of some prunes
 	Readers   int
+	Store     string // database under the pruned node: memory | pebble (crash images are always replayed into memory)
 }
 
 type world struct {
@@ -477,7 +490,7 @@ func makeConfig(r *lib.Run, idx int, rng *rand.Rand) config {
 	c.Backend = map[bool]string{false: "legacy", true: "new"}[c.NewState]
 	maxLen := 36
 	if !r.Quick() {
-		maxLen = 70
+		maxLen = 60
 	}
 	c.ChainLen = 14 + rng.IntN(maxLen-13)
 	c.Retained = pick(rng, uint64(0), 1, 1, 5, 5, 5, 50, uint64(c.ChainLen+20))
@@ -505,6 +518,10 @@ func makeConfig(r *lib.Run, idx int, rng *rand.Rand) config {
 		c.StartAt = rng.IntN(c.ChainLen/2 + 1)
 	}
 	c.Cancel = rng.IntN(5) < 2
+	c.Store = "memory"
+	if idx%5 == 4 {
+		c.Store = "pebble"
+	}
 	c.Readers = 1
 	if r.Race {
 		c.Readers = 2
@@ -538,7 +555,21 @@ func runScenario(r *lib.Run, idx int) {
 	w.shared.main.Store(w.main)
 	w.ps.SkipEvents = true // an unbounded event query fails on a pruned node by design; events are compared separately from the floor
 
-	w.rec = chain.NewRecDB(newFastMem())
+	var inner db.KeyValueStore = newFastMem()
+	if cfg.Store == "pebble" {
+		dir, err := os.MkdirTemp("", "verif-c16-")
+		if err != nil {
+			panic(err)
+		}
+		defer os.RemoveAll(dir)
+		pdb, err := pebblev2.New(dir)
+		if err != nil {
+			panic(err)
+		}
+		defer pdb.Close()
+		inner = pdb
+	}
+	w.rec = chain.NewRecDB(inner)
 	w.rec.OnCommit = func(_ int, ws chain.WriteSet) {
 		if ws.Direct || !w.inEvent.Load() {
 			return
@@ -788,16 +819,14 @@ func runScenario(r *lib.Run, idx int) {
 	}
 	Fend := w.check(w.bc.Load(), w.rec, judgeCtx{Name: "restarted"})
 
-	np, pruned, nerr := 0, uint64(0), 0
 	if w.sess != nil {
-		np, pruned, nerr = w.sess.counts()
-	}
-	_ = np
-	_ = pruned
-	if nerr > 0 {
-		w.r.Count("prune_errors_reported_by_listener", nerr)
+		if _, _, nerr := w.sess.counts(); nerr > 0 {
+			w.r.Count("prune_errors_reported_by_listener", nerr)
+			w.logf("listener errors: %v", w.sess.errList())
+		}
 	}
 	r.Count("scenarios", 1)
+	r.Count("scenarios_on_"+cfg.Store, 1)
 	if w.floorMoved > 0 {
 		r.Count("scenarios_with_pruning", 1)
 		r.Case(fmt.Sprintf("%s-r%d-age%d-%s%d-b%d-l%d-len%d-start%d-cancel%v-F%d-moves%d", cfg.Backend, cfg.Retained, cfg.MinAgeH, cfg.Profile, cfg.YoungFrom, cfg.Batch, cfg.L2Per, cfg.ChainLen, cfg.StartAt, cfg.Cancel, Fend, w.floorMoved))
@@ -863,7 +892,11 @@ func (w *world) restart() bool {
 
 func TestC16(t *testing.T) {
 	r := lib.Start("C16", "fault_enumeration")
-	n := r.N(40, 1600)
+	n := r.N(40, 320)
+	floor := 12
+	if r.Race {
+		floor = 3 // the race binary runs an eighth of the cases
+	}
 	r.Cases(n, 0, func(idx int) { runScenario(r, idx) })
 	r.Assume("the twin (same Juno code, never pruned) is the reference for every answer; its own correctness is C03/C04/C07's subject")
 	r.Assume("the only senders on the pruner's two feeds are the harness; an event counts as handled when both subscription channels are empty and the goroutine running Pruner.Run is parked in Run's select (runtime.Stack) - no sleep length enters a verdict")
@@ -873,5 +906,5 @@ func TestC16(t *testing.T) {
 		"the real pruner.Pruner.Run is driven by new-head / L1-head events (lagging, equal, ahead, backwards, duplicates, dropped) while the chain grows, then the node extends, reverts to the floor, regrows on a fork and restarts; "+
 		"after every event that made the pruner write, and for sampled crash images (database after the k-th commit of the prune, reopened with a freshly seeded floor; one image per prune also resumed), and after cancellation at the k-th batch write (+ restart): "+
 		"floor := OldestRetainedBlock <= running max of min(L1 head, head) - retained capped by the oldest young block; every probe answer about a block >= floor, every state view >= floor-1 (by number and hash), the head state and event queries from the floor equal the never-pruned twin's; "+
-		"below the floor bodies / lookups must fail and header-derived or state answers must fail or equal the twin's; distinct = distinct (configuration, final floor, number of floor advances)", 12)
+		"below the floor bodies / lookups must fail and header-derived or state answers must fail or equal the twin's; distinct = distinct (configuration, final floor, number of floor advances)", floor)
 }
